@@ -43,6 +43,13 @@ type Spec struct {
 	// 0 = a log line), Pre points of another series in front (remote-write: moves the cross-series flush counter)
 	// sweep: one stream of N regular fixed-size records whose first label value is padded by Pad bytes, so that the
 	// record boundaries (and every field of a record) sweep across byte offset Limit of the body
+	// history: the body is decoded AFTER another one in the same process (run serially, nothing in between); the rows
+	// must be exactly those of a fresh process.  Prev is a full case, PrevRaw a raw (malformed) body for the same decoder.
+	Prev    *Spec  `json:"prev,omitempty"`
+	PrevRaw string `json:"prev_raw,omitempty"`
+	// instant: one stream with one log entry at T0 + ShiftS seconds + FracNs nanoseconds (the spelling is Opt.TsFmt)
+	ShiftS int `json:"shift_s,omitempty"`
+	FracNs int `json:"frac_ns,omitempty"`
 	Limit   int    `json:"limit,omitempty"`
 	Pad     int    `json:"pad,omitempty"`
 	Special string `json:"special,omitempty"`
@@ -279,6 +286,10 @@ func Build(s Spec) (*ir.Proto, []ir.Stream, error) {
 	if p == nil {
 		return nil, nil, fmt.Errorf("unknown protocol %q", s.Proto)
 	}
+	if s.Space == "instant" {
+		ls := labelSets[s.Proto]
+		return p, []ir.Stream{{Labels: ls[s.Labels[0]%len(ls)], Entries: []ir.Entry{{TsNs: T0 + int64(s.ShiftS)*1e9 + int64(s.FracNs), Line: "at the instant", Type: ir.TypeLog}}}}, nil
+	}
 	if s.Space == "sweep" {
 		return p, buildSweep(p, s.N, s.Pad, s.LineLen, s.Opt), nil
 	}
@@ -423,6 +434,18 @@ func d4TypeCount(streams []ir.Stream) int {
 }
 
 func judge(s Spec) verdict {
+	if s.Prev != nil { // history: decode the earlier body first, whatever becomes of it
+		if pp, streams, err := Build(*s.Prev); err == nil {
+			if body, err := pp.Render(streams, s.Prev.Opt); err == nil {
+				pp.Parse(body, s.Prev.Opt, nil)
+			}
+		}
+	}
+	if s.PrevRaw != "" {
+		if pp := ir.ProtoByName(s.Proto); pp != nil {
+			pp.Parse([]byte(s.PrevRaw), s.Opt, nil)
+		}
+	}
 	p, streams, err := Build(s)
 	if err != nil {
 		if strings.Contains(err.Error(), ir.ErrInexpressible.Error()) {
@@ -936,6 +959,68 @@ func enumerate(thorough bool, emit func(Spec)) map[string]int64 {
 				}
 			}
 		}
+		// ---- history space: body B decoded after body A in the same process must give the rows of a fresh process ----
+		{
+			// (h1) every decoder after every decoder: a small regular body after a small regular body (same / other labels),
+			//      after a rejected body and after an oversized (multi-chunk) one
+			o := sweepRenderings(p, false)[0]
+			b := Spec{Space: "sweep", Proto: p.Name, Opt: o, N: 3}
+			for _, q := range ir.Protocols {
+				for _, pad := range []int{0, 5} {
+					a := Spec{Space: "sweep", Proto: q.Name, Opt: sweepRenderings(q, false)[0], N: 2, Pad: pad}
+					bb := b
+					bb.Prev = &a
+					send("history_after_another_body", bb)
+				}
+			}
+			for _, raw := range []string{`{"streams":[{"stream":{"a":"x"},"values":[["not-a-time","l"]]}]}`, "\x00\xff garbage", `[{"message":1}]`, ""} {
+				bb := b
+				bb.PrevRaw = raw
+				send("history_after_rejected_body", bb)
+			}
+			if strings.Contains(p.Kinds, "l") {
+				big := Spec{Space: "count", Proto: p.Name, Opt: o, Labels: []int{0, 1, 3 % len(ls)}, Counts: []int{1400, 1400, 600}, LineLen: 400}
+				if p == ir.DatadogLogs {
+					big.Labels = []int{2, 4, 7}
+				}
+				if p == ir.Influx {
+					big.Labels = []int{0, 1, 2}
+				}
+				bb := b
+				bb.Prev = &big
+				send("history_after_oversized_body", bb)
+			}
+		}
+		if p == ir.LokiJSON {
+			// (h2) timestamp spellings of the entries layout: A and B differ in one aspect — spelling (integer, RFC3339 Z,
+			//      RFC3339 +02:00), fraction (none / nanoseconds), wall-clock second (B's wall-clock text equals A's, which
+			//      with an offset means another instant, or not), label set (same / other), layout of A
+			shifts := map[int]int{0: 0, 1: 0, 2: -7200} // the shift that makes a +02:00 spelling show the wall clock of T0
+			for fa := 0; fa < 3; fa++ {
+				for fb := 0; fb < 3; fb++ {
+					for _, fracA := range []int{0, 123} {
+						for _, fracB := range []int{0, 123, 120000000} {
+							for _, sameWall := range []bool{true, false} {
+								for _, lb := range []int{0, 1} {
+									for _, layoutA := range []int{1, 0} {
+										if layoutA == 0 && fa != 0 {
+											continue
+										}
+										a := Spec{Space: "instant", Proto: p.Name, Opt: ir.Opt{Layout: layoutA, TsFmt: fa}, Labels: []int{0}, ShiftS: shifts[fa], FracNs: fracA}
+										bs := Spec{Space: "instant", Proto: p.Name, Opt: ir.Opt{Layout: 1, TsFmt: fb}, Labels: []int{lb}, ShiftS: shifts[fb], FracNs: fracB}
+										if !sameWall {
+											bs.ShiftS += 61
+										}
+										bs.Prev = &a
+										send("history_timestamp_spellings", bs)
+									}
+								}
+							}
+						}
+					}
+				}
+			}
+		}
 		// ---- sweep space: how the body arrives, and record boundaries swept across every buffer size / limit the
 		//      decoders use (collected from the sources) ------------------------------------------------------------
 		for _, o := range sweepRenderings(p, thorough) {
@@ -1298,6 +1383,31 @@ func main() {
 		specs = append(specs[k:], specs[:k]...)
 	}
 
+	// history cases run first, one after the other in this goroutine: nothing else may touch process-wide decoder state
+	// between body A and body B
+	var parallel []Spec
+	var serial []Spec
+	for _, s := range specs {
+		if s.Prev != nil || s.PrevRaw != "" {
+			serial = append(serial, s)
+		} else {
+			parallel = append(parallel, s)
+		}
+	}
+	type sres struct {
+		s Spec
+		v verdict
+	}
+	var serialResults []sres
+	serialStart := time.Now()
+	for _, s := range serial {
+		if r.Expired() {
+			break
+		}
+		serialResults = append(serialResults, sres{s, judge(s)})
+	}
+	r.Extra["history_phase_seconds"] = time.Since(serialStart).Seconds()
+	specs = parallel
 	workers := runtime.NumCPU()
 	if workers > 14 {
 		workers = 14
@@ -1382,6 +1492,34 @@ func main() {
 		}(w)
 	}
 	wg.Wait()
+	for i, sr := range serialResults { // fold the history cases in (they ran before the workers started)
+		v := sr.v
+		if v.skipped {
+			skipped++
+			continue
+		}
+		done++
+		distinct[v.bodyHash^uint64(i+1)*0x9e3779b97f4a7c15] = struct{}{} // the same body after another history is another case
+		r.Outcome(v.outcome)
+		perProto[sr.s.Proto]++
+		if v.rejected != "" {
+			rejected[v.rejected]++
+		}
+		if v.class != "" {
+			cl := v.class
+			if !strings.HasPrefix(cl, "chunk") {
+				cl = "after_earlier_body:" + cl // the same body is exact in a fresh process: state carried across requests
+			}
+			classCount[cl]++
+			if len(findings[cl]) < 2 {
+				findings[cl] = append(findings[cl], finding{int64(-len(serialResults) + i), cl, v.what + " — decoded after another body in the same process", sr.s})
+			}
+		}
+	}
+	r.Extra["history_cases_run_serially"] = len(serialResults)
+	if len(serialResults) < len(serial) {
+		r.Cap(fmt.Sprintf("history cases: stopped after %d of %d", len(serialResults), len(serial)))
+	}
 
 	r.AddEval(done)
 	r.TracesValidated = done
@@ -1392,7 +1530,7 @@ func main() {
 	for k := range distinct {
 		r.Distinct(fmt.Sprintf("%016x", k))
 	}
-	r.Extra["cases_enumerated"] = len(specs)
+	r.Extra["cases_enumerated"] = len(specs) + len(serial)
 	r.Extra["cases_inexpressible_skipped"] = skipped
 	r.Extra["cases_per_subspace"] = sub
 	r.Extra["bodies_parsed_per_protocol"] = perProto
@@ -1400,7 +1538,7 @@ func main() {
 	r.Extra["violation_class_counts"] = classCount
 	r.Extra["reference_fingerprints"] = "per (protocol, label set) from a single-stream body through the same parser"
 	r.Extra["d1_profile_probe"] = "retired: D1 (oversize profile chunk in the wrong response field) was confirmed with a probe of the real onProfile callback and is fixed in /repo (commit 9382052); the probe needed an export that named private fields of parserDoer, profiles are outside the C03 statement"
-	if int64(len(specs)) != done+skipped {
+	if int64(len(specs)+len(serialResults)) != done+skipped {
 		r.Cap(fmt.Sprintf("stopped after %d of %d cases", done+skipped, len(specs)))
 	}
 	var classes []string
